@@ -226,24 +226,31 @@ def _classes():
             return self.name
 
     class Router(object):
-        """a real NSAP/NSE on several traced vlan nodes, one per attached network"""
+        """a real NSAP/NSE on several traced vlan nodes, one per attached network; with `app` a recording
+        application sits above the NSAP (a router that is also a device): the library makes it a station of
+        the network of its "local adapter", the last port bound"""
         is_router = True
 
-        def __init__(self, sim, name, ports, announce=False):
+        def __init__(self, sim, name, ports, announce=False, app=False):
             # ports: [(lan, net, addr)]
             self.name, self.ports = name, {}
             self.nsap = NetworkServiceAccessPoint()
             self.nse = (AnnouncingNSE if announce else QuietNSE)()
             bind(self.nse, self.nsap)
+            self.app = None
+            if app:
+                self.app = RecordingApp(self)
+                bind(self.app, self.nsap)
             self.nodes = {}
             for lan, net, addr in ports:
                 node = TracedNode(sim, self, LocalStation(addr), lan)
                 self.nsap.bind(node, net, LocalStation(addr))
                 self.nodes[net] = node
                 self.ports[net] = addr
+            self.net, self.addr, self.knows = ports[-1][1], ports[-1][2], 'net+addr'
 
         def __repr__(self):
-            return self.name
+            return self.name + ('(app %d:%d)' % (self.net, self.addr) if self.app else '')
 
     return dict(Frame=Frame, TracedNode=TracedNode, Station=Station, Router=Router, RecordingApp=RecordingApp,
                 Network=V.Network)
@@ -260,7 +267,8 @@ def net_classes():
 class Internetwork(object):
     """topology description -> live objects
 
-    spec = {'nets': {net: [(station address, knows)]}, 'routers': [[(net, address)...]], 'announce': bool}
+    spec = {'nets': {net: [(station address, knows)]}, 'routers': [[(net, address)...]], 'announce': bool,
+            'router_apps': (indexes of routers that carry an application)}
     """
 
     def __init__(self, sim, spec):
@@ -275,10 +283,12 @@ class Internetwork(object):
             for addr, knows in spec['nets'][net]:
                 self.stations.append(K['Station'](sim, '%d:%d' % (net, addr), self.lans[net], net, addr, knows))
         for i, ports in enumerate(spec['routers']):
-            self.routers.append(K['Router'](sim, 'R%d' % i, [(self.lans[n], n, a) for n, a in ports], announce=spec.get('announce', False)))
+            self.routers.append(K['Router'](sim, 'R%d' % i, [(self.lans[n], n, a) for n, a in ports], announce=spec.get('announce', False),
+                                            app=i in spec.get('router_apps', ())))
+        self.apps = self.stations + [r for r in self.routers if r.app]      # everything with an application, stations first
 
     def clear(self):
-        for s in self.stations:
+        for s in self.apps:
             del s.app.got[:]
         del self.sim.frames[:]
 
